@@ -1,29 +1,16 @@
 use vcore::front::{self, Project};
-fn run(p: &Project, entry: &str) -> Option<Vec<String>> {
-  let mut heap = samlang_heap::Heap::new();
-  let c = front::check_project(&mut heap, p);
-  if c.errors.has_errors() { println!("rejected: {}", c.errors.errors().len()); return None; }
-  let e = front::mod_ref(&mut heap, entry);
-  let (t, _) = vcore::refint::run(&heap, &c.checked, e, &vcore::trace::Limits { max_steps: 20_000_000, max_depth: 4000, max_lines: 20_000 });
-  println!("ending {:?} ub {:?}", t.ending, t.ub);
-  Some(t.lines)
-}
 fn main() {
-  let pseed = 19009u64;
-  let g = vcore::pgen::generate(pseed, &vcore::pgen::GenConfig::default_for(pseed));
-  let p = g.project.clone().with_std();
-  let a = run(&p, &g.entry).unwrap();
-  let mut p2 = p.clone();
-  for m in p2.modules.iter_mut() {
-    if m.0 == "gen.M1" {
-      let parsed = vcore::fmtcheck::parse(&m.1).unwrap();
-      let f = vcore::fmtcheck::format(&parsed, 100).unwrap();
-      std::fs::write("/tmp/w/M1.orig.sam", &m.1).unwrap();
-      std::fs::write("/tmp/w/M1.fmt.sam", &f).unwrap();
-      m.1 = f;
+  let mut bad = 0;
+  for seed in 1..201u64 {
+    let mut rng = vcore::rng::Rng::new(seed);
+    let t = vcore::exprgen::generic_zoo(&mut rng);
+    let p = Project::single("Zoo", &t).with_std();
+    let mut heap = samlang_heap::Heap::new();
+    let c = front::check_project(&mut heap, &p);
+    if c.errors.has_errors() {
+      bad += 1;
+      if bad <= 2 { for e in c.errors.errors().iter().take(3) { println!("// {}: {}", e.location.pretty_print(&heap), e.to_ide_format(&heap, &c.handles).ide_error); } }
     }
   }
-  let b = run(&p2, &g.entry).unwrap();
-  for (i, (x, y)) in a.iter().zip(b.iter()).enumerate() { if x != y { println!("line {i}: {x} | {y}"); } }
-  println!("{} {}", a.len(), b.len());
+  println!("rejected {bad} of 200");
 }
